@@ -8,7 +8,7 @@ Observation policy (DESIGN 3.2): public API first; the private attributes `_curr
 `table_size_changes`, `dynamic_entries` are read opportunistically and printed as `?` when absent.
 Impl-only annotations follow a `#` on the op line (e.g. `#buf=bytearray`, `#log=debug`).
 """
-import sys, os, signal, logging
+import sys, os, signal, logging, copy
 
 repo = os.environ.get('HPACK_REPO', '/repo')
 sys.path.insert(0, os.path.join(repo, 'src'))
@@ -47,9 +47,15 @@ def unhex(s):
 
 
 def canon(e):
-    for c in (InvalidTableIndexError, InvalidTableSizeError, OversizedHeaderListError, HPACKDecodingError):
-        if isinstance(e, c):
-            return 'err ' + c.__name__
+    # the documented family, as an application sees it: the names exported by the package, each a subclass of
+    # hpack.HPACKDecodingError and hpack.HPACKError (an exception outside that hierarchy "escapes")
+    if isinstance(e, hpack.HPACKDecodingError) and isinstance(e, hpack.HPACKError) and isinstance(e, HPACKDecodingError):
+        for nm in ('InvalidTableIndexError', 'InvalidTableSizeError', 'OversizedHeaderListError'):
+            if isinstance(e, getattr(hpack, nm)):
+                if nm == 'InvalidTableIndexError' and not isinstance(e, hpack.InvalidTableIndex) and type(e).__name__ == 'InvalidTableIndex':
+                    return 'esc ' + type(e).__name__
+                return 'err ' + nm
+        return 'err HPACKDecodingError'
     return 'esc ' + type(e).__name__
 
 
@@ -98,6 +104,20 @@ def show_headers(hs):
     out = []
     for h in hs:
         cls = 'N' if isinstance(h, NeverIndexedHeaderTuple) else ('P' if isinstance(h, HeaderTuple) else 'T')
+        # the class contract an application relies on: `indexable`, a 2-tuple that equals the plain pair and can be
+        # taken apart and hashed like one
+        try:
+            n_, v_ = h
+            sane = (len(h) == 2 and tuple(h) == (h[0], h[1]) and (n_, v_) == (h[0], h[1]) and hash(h) == hash((h[0], h[1]))
+                    and h == (h[0], h[1]))
+            if cls == 'N':
+                sane = sane and h.indexable is False
+            elif cls == 'P':
+                sane = sane and h.indexable is True
+        except Exception:
+            sane = False
+        if not sane:
+            cls += '?'
         out.append(hx(as_utf8(h[0])) + ':' + hx(as_utf8(h[1])) + ':' + cls)
     return ','.join(out)
 
